@@ -20,6 +20,9 @@ type FuncVC struct {
 	Params   [][2]string // name, term for model extraction
 	ParamT   []types.Type
 	Results  [][2]string
+	// ElemTerms: for parameters that are strings or slices of basic integers, the
+	// terms whose model values give the length and the first elements (replay)
+	ElemTerms map[int][]string
 	Fn       *ssa.Function
 	Eng      *Engine // engine (build configuration) this function was loaded with
 }
@@ -114,6 +117,12 @@ func (e *Engine) verifyFunc(ct *Contract) (res *FuncVC) {
 		args = append(args, v)
 		res.Params = append(res.Params, [2]string{p.Name(), name})
 		res.ParamT = append(res.ParamT, p.Type())
+		if terms := c.elemTerms(st, p.Type(), name); len(terms) > 0 {
+			if res.ElemTerms == nil {
+				res.ElemTerms = map[int][]string{}
+			}
+			res.ElemTerms[len(res.Params)-1] = terms
+		}
 	}
 	fr.params = args
 	// a closure verified on its own: its captured variables are unknown cells
@@ -442,3 +451,44 @@ func (e *Engine) verifyLemma(ct *Contract, res *FuncVC) *FuncVC {
 }
 
 func fragFuncName(name string) string { return "verifFrag_" + name }
+
+const replayElems = 24
+
+// elemTerms: terms for the length and the first replayElems elements of a string
+// or of a slice of basic integers in the entry state.
+func (c *Ctx) elemTerms(st *State, t types.Type, name string) []string {
+	idx := func(k int) string {
+		if c.mode == BV {
+			return fmt.Sprintf("#x%016x", k)
+		}
+		return fmt.Sprintf("%d", k)
+	}
+	if isStringType(t) {
+		terms := []string{fmt.Sprintf("(str_len %s)", name)}
+		for k := 0; k < replayElems; k++ {
+			terms = append(terms, fmt.Sprintf("(str_at %s %s)", name, idx(k)))
+		}
+		return terms
+	}
+	sl, ok := t.Underlying().(*types.Slice)
+	if !ok {
+		return nil
+	}
+	if _, _, isInt := isIntType(sl.Elem()); !isInt {
+		return nil
+	}
+	key := c.arrKeyFor(sl.Elem())
+	c.ensureHeapSort(key, sl.Elem())
+	h := c.heapSym(st, key)
+	terms := []string{fmt.Sprintf("(s_len %s)", name)}
+	for k := 0; k < replayElems; k++ {
+		var at string
+		if c.mode == BV {
+			at = fmt.Sprintf("(bvadd (s_off %s) %s)", name, idx(k))
+		} else {
+			at = fmt.Sprintf("(+ (s_off %s) %s)", name, idx(k))
+		}
+		terms = append(terms, fmt.Sprintf("(select (select %s (s_arr %s)) %s)", h, name, at))
+	}
+	return terms
+}
